@@ -297,3 +297,206 @@ Section MMain.
     now rewrite build_state_header_only, build_state_dir_state.
   Qed.
 End MMain.
+
+(* ------------------------------------------------------------ one parse worker: arrival order = directory order *)
+Section OneWorker.
+  Local Open Scope nat_scope.
+  Variable sel : bool.
+  Variable parse : N -> outcome.
+  Variable content : N -> ifile.
+  Variable add_ok : N -> bool.
+
+  Notation fire_m := (fire_m sel parse content add_ok).
+  Notation run_m := (run_m sel parse content add_ok).
+  Notation step := (step sel parse add_ok).
+
+  Definition mfile (m : mst) : list N := match m with MAdding f => [f] | _ => [] end.
+  Definition wfile (w : wst) : list N :=
+    match w with WGot p | WParsing p => files_of parse [p] | WHolding f => [f] | _ => [] end.
+  (* the files merged, in the merger, with the worker and still to be walked — in this order *)
+  Definition pipeline (t : st) : list N :=
+    rev (merged t) ++ mfile (mg t) ++ flat_map wfile (ws t) ++ files_of parse (queue t).
+
+  Lemma files_of_cons p q : files_of parse (p :: q) = files_of parse [p] ++ files_of parse q.
+  Proof. unfold files_of. cbn [flat_map]. now rewrite app_nil_r. Qed.
+
+  Lemma one_mid {A} (l1 l2 : list A) w : length (l1 ++ w :: l2) = 1 -> l1 = [] /\ l2 = [].
+  Proof.
+    rewrite app_length. cbn [length]. intros H.
+    destruct l1 as [|a l1]; [|cbn [length] in H; lia]. destruct l2 as [|b l2]; [auto|cbn [length] in H; lia].
+  Qed.
+
+  Lemma pipeline_step l t t' : step l t t' -> length (ws t) = 1 -> gcancel t' = false -> pipeline t' = pipeline t.
+  Proof.
+    intros St L G. destruct St; cbn [ws] in L; try (apply one_mid in L as [-> ->]);
+      unfold pipeline; cbn [ws mg merged queue app flat_map wfile mfile]; rewrite ?app_nil_r; try reflexivity.
+    - now rewrite (files_of_cons p q).
+    - unfold after_parse. destruct (parse p) as [| |f] eqn:P; cbn [wfile];
+        unfold files_of; cbn [flat_map]; rewrite P; cbn [app]; reflexivity.
+    - cbn [rev]. now rewrite <- app_assoc.
+    - unfold gcancel in G. cbn [ws mg m_err] in G. rewrite orb_true_r in G. discriminate.
+    - unfold gcancel in *. cbn [ws mg app existsb w_err] in *. congruence.
+  Qed.
+
+  Lemma seeded_step l s s' : fire_m l s = Some s' ->
+    seeded s' = seeded s \/
+    (seeded s = None /\ merged (proto s') = merged (proto s) /\ mg (proto s') = mg (proto s) /\
+     exists f, seeded s' = Some f /\ In (WHolding f) (ws (proto s'))).
+  Proof.
+    intros F. pose proof (fire_step _ _ _ _ _ _ (fire_m_proto _ _ _ _ _ _ _ F)) as St.
+    unfold MergeDirMerge.fire_m in F. rewrite (fire_m_proto _ _ _ _ _ _ _ F) in F.
+    destruct s as [t so se]. destruct s' as [t' so' se']. cbn [proto sorted seeded] in *.
+    inversion St; subst; cbn [ws mg merged] in F; rewrite ?nth_error_mid in F;
+      try (injection F as <- <-; now left).
+    - unfold after_parse in *. destruct (parse p) as [| |f] eqn:P; try (injection F as <- <-; now left).
+      destruct se as [f0|]; injection F as <- <-; [now left|]. right.
+      repeat split; auto. exists f. split; [reflexivity|]. cbn [ws]. apply in_or_app. right. now left.
+    - rewrite H in F. injection F as <- <-. now left.
+    - rewrite H in F. injection F as <- <-. now left.
+  Qed.
+
+  Definition InvOne (paths : list N) (s : mstate) : Prop :=
+    gcancel (proto s) = false ->
+    pipeline (proto s) = files_of parse paths /\
+    (forall f0, seeded s = Some f0 -> hd_error (files_of parse paths) = Some f0).
+
+  Lemma invone_step paths l s s' : fire_m l s = Some s' -> length (ws (proto s)) = 1 ->
+    InvM parse content paths s -> InvOne paths s -> InvOne paths s'.
+  Proof.
+    intros F L IM IO G'.
+    pose proof (fire_step _ _ _ _ _ _ (fire_m_proto _ _ _ _ _ _ _ F)) as St.
+    assert (G : gcancel (proto s) = false).
+    { destruct (gcancel (proto s)) eqn:G; [|reflexivity]. rewrite (gcancel_mono _ _ _ _ _ _ St G) in G'. discriminate. }
+    destruct (IO G) as [Pp Sd].
+    assert (Pp' : pipeline (proto s') = files_of parse paths) by (rewrite <- Pp; eapply pipeline_step; eassumption).
+    split; [exact Pp'|]. intros f0 Hs.
+    destruct (seeded_step _ _ _ F) as [E|(E & Em & Eg & f & Ef & Hin)].
+    - apply Sd. now rewrite <- E.
+    - rewrite Hs in Ef. injection Ef as ->.
+      unfold InvM in IM. rewrite E in IM. destruct IM as [_ (M & Gm & _)].
+      pose proof (ws_length_step _ _ _ _ _ _ St) as L'. rewrite L in L'.
+      destruct (ws (proto s')) as [|w [|w2 r]] eqn:W; cbn [length] in L'; try lia.
+      destruct Hin as [->|[]].
+      unfold pipeline in Pp'. rewrite W, Em, M, Eg in Pp'. cbn [rev app flat_map wfile] in Pp'.
+      destruct (mg (proto s)) as [|g| |] eqn:Emg; cbn [mfile app] in Pp'; try (rewrite <- Pp'; reflexivity).
+      exfalso. now apply (Gm g).
+  Qed.
+
+  Lemma invone_run paths sched : forall s s', length (ws (proto s)) = 1 ->
+    Inv parse paths (proto s) -> InvM parse content paths s -> InvOne paths s ->
+    run_m sched s = Some s' -> InvOne paths s'.
+  Proof.
+    induction sched as [|l rest IH]; cbn [MergeDirMerge.run_m]; intros s s' L I IM IO H.
+    - now injection H as <-.
+    - destruct (fire_m l s) as [s1|] eqn:F; [|discriminate].
+      pose proof (fire_step _ _ _ _ _ _ (fire_m_proto _ _ _ _ _ _ _ F)) as St.
+      assert (I1 : Inv parse paths (proto s1)) by (eapply inv_step; eassumption).
+      eapply (IH s1); [| | | |exact H].
+      + rewrite (ws_length_step _ _ _ _ _ _ St). exact L.
+      + exact I1.
+      + eapply invm_step; eassumption.
+      + eapply invone_step; eassumption.
+  Qed.
+
+  Lemma exited_no_files w : forallb w_exited w = true -> flat_map wfile w = [].
+  Proof.
+    induction w as [|x w IH]; cbn [forallb flat_map]; [reflexivity|]. intros H. apply andb_prop in H as [Hx Hw].
+    rewrite (IH Hw). destruct x; try discriminate; reflexivity.
+  Qed.
+
+  (* ParseWorkers = 1: the merger receives the files in directory order and the first of them seeds
+     the header, so MergeDir returns EXACTLY (structure, batch numbers, entry order) what MergeFiles
+     returns on the directory's files *)
+  Theorem single_worker_exact paths c sched s out : run_m sched (init_m 1 paths) = Some s ->
+    terminal (proto s) = true -> result_m c s = Some out ->
+    arrivals s = files_of parse paths /\ out = merge_files (dir_files parse content paths) c.
+  Proof.
+    intros H Ht Hr.
+    destruct (reach_m sel parse content add_ok 1 paths sched s H) as (Hp & I & IM).
+    assert (IO : InvOne paths s).
+    { eapply invone_run; [| | | |exact H].
+      - reflexivity.
+      - apply inv_init.
+      - apply invm_init.
+      - intros _. split; [|discriminate]. unfold pipeline, init_m, init. cbn. reflexivity. }
+    pose proof Hr as Hr0. unfold result_m in Hr0. destruct (gcancel (proto s)) eqn:G; [discriminate|]. clear Hr0.
+    destruct (IO G) as [Pp Sd].
+    assert (A : arrivals s = files_of parse paths).
+    { destruct I as (_ & _ & I3 & _).
+      unfold terminal in Ht. apply andb_prop in Ht as [Ht Hme]. apply andb_prop in Ht as [Ht _].
+      apply andb_prop in Ht as [Ht Hwe]. apply andb_prop in Ht as [Hwd _].
+      destruct (I3 Hwd) as [Q|Q]; [|congruence].
+      unfold pipeline in Pp. rewrite Q, (exited_no_files _ Hwe) in Pp.
+      destruct (mg (proto s)); try discriminate; cbn [mfile files_of flat_map app] in Pp; now rewrite app_nil_r in Pp. }
+    split; [exact A|].
+    destruct (output_exact sel parse content add_ok 1 paths c sched s out H Ht Hr) as (_ & _ & Hseed & E).
+    destruct (seeded s) as [f0|] eqn:Es.
+    - specialize (Sd f0 eq_refl). rewrite <- A in Sd.
+      destruct (arrivals s) as [|a rest] eqn:Ea; [discriminate|]. injection Sd as ->.
+      destruct (output_is_a_mergefiles_result sel parse content add_ok 1 paths c sched s out f0 rest H Ht Hr Es Ea) as [-> _].
+      unfold dir_files. now rewrite <- A, Ea.
+    - rewrite E. cbn [option_map as_mergefiles_input]. unfold dir_files. now rewrite <- A.
+  Qed.
+End OneWorker.
+
+(* ------------------------------------------------------------ C08/C09 theorems carried over to MergeDir's result *)
+Section Transfer.
+  Variable sel : bool.
+  Variable parse : N -> outcome.
+  Variable content : N -> ifile.
+  Variable add_ok : N -> bool.
+  Variable n : nat.
+  Variable paths : list N.
+  Variable c : conds.
+  Variable sched : list label.
+  Variable s : mstate.
+  Variable out : list rfile.
+  Hypothesis Hrun : run_m sel parse content add_ok sched (init_m n paths) = Some s.
+  Hypothesis Hterm : terminal (proto s) = true.
+  Hypothesis Hres : result_m c s = Some out.
+
+  Let fs : list ifile := as_mergefiles_input (option_map content (seeded s)) (map content (arrivals s)).
+
+  Lemma out_is_mergefiles : out = merge_files fs c.
+  Proof. exact (proj2 (proj2 (proj2 (output_exact sel parse content add_ok n paths c sched s out Hrun Hterm Hres)))). Qed.
+
+  (* every file of that list is a file of the directory, or the batch-less seeding header *)
+  Lemma fs_from_dir f : In f fs -> In f (dir_files parse content paths) \/ if_batches f = [].
+  Proof.
+    destruct (output_exact sel parse content add_ok n paths c sched s out Hrun Hterm Hres) as (P & _ & _ & _).
+    assert (Hm : forall g, In g (map content (arrivals s)) -> In g (dir_files parse content paths)).
+    { intros g Hg. unfold dir_files. eapply Permutation_in; [apply Permutation_map; exact P|exact Hg]. }
+    unfold fs. destruct (seeded s) as [f0|]; cbn [option_map as_mergefiles_input].
+    - intros [<-|Hf]; [right; reflexivity|left; now apply Hm].
+    - intros Hf. left. now apply Hm.
+  Qed.
+
+  Lemma fs_batches_from_dir f ib : In f fs -> In ib (if_batches f) -> In f (dir_files parse content paths).
+  Proof. intros Hf Hib. destruct (fs_from_dir f Hf) as [H|H]; [exact H|]. rewrite H in Hib. destruct Hib. Qed.
+
+  (* C09_limits, C09_batch_numbers_ascending, C09_traces_ascending for MergeDir (same convertToFiles) *)
+  Theorem dir_limits g : In g out ->
+    (0 < maxLines c -> file_lines g <= maxLines c \/ length (file_entries g) = 1%nat)%Z /\
+    (0 < effective_dollar c -> file_amount g <= effective_dollar c \/ length (file_entries g) = 1%nat)%Z /\
+    rf_batches g <> [] /\ Forall (fun rb => rb_entries rb <> []) (rf_batches g) /\
+    asc 0 (map rb_number (rf_batches g)) /\
+    Forall (fun rb => tasc (rb_entries rb)) (rf_batches g).
+  Proof.
+    rewrite out_is_mergefiles. intros Hg.
+    destruct (merge_limits fs c g Hg) as (H1 & H2 & H3 & H4).
+    repeat split; try assumption.
+    - now apply (merge_numbers fs c).
+    - apply Forall_forall. intros rb Hrb. now apply (merge_traces fs c g).
+  Qed.
+
+  (* C08_no_mixing for MergeDir: an output entry is an entry of a directory file with the output
+     file's routing pair, under a header with the same identifying fields *)
+  Theorem dir_no_mixing g rb e : In g out -> In rb (rf_batches g) -> In e (rb_entries rb) ->
+    exists f ib, In f (dir_files parse content paths) /\ In ib (if_batches f) /\ In e (ib_entries ib)
+                 /\ if_route f = rf_route g /\ hkey (ib_header ib) = hkey (rb_header rb).
+  Proof.
+    rewrite out_is_mergefiles. intros Hg Hrb He.
+    destruct (merge_no_mixing fs c g rb e Hg Hrb He) as (f & ib & Hf & Hib & Hie & Hr & Hk).
+    exists f, ib. repeat split; try assumption. eapply fs_batches_from_dir; eassumption.
+  Qed.
+End Transfer.
